@@ -37,7 +37,7 @@ class Part:
         self.harness = harness
         self.bound = bound or {"quick": 1, "thorough": 2}
         self.split_depth = split_depth
-        self.budget = budget or {"quick": 45, "thorough": 900}
+        self.budget = budget or {"quick": 600, "thorough": 900}
         self.custom = custom
         self.engine = engine
         self.tiers = tiers
